@@ -17,7 +17,6 @@ RULE = ("programs: loop nests <= 3 over lists, sets (ints/strings), maps (keys/v
         "break, return leaves only the loop, condition tested once, unsorted set/map iteration, filter ignored, "
         "also-for stops at the shorter) changes its observable outcome; distinct by program text")
 ASSUMPTIONS = [
-    "for maps, comprehension/loop agreement on `values` is compared as a multiset (the loop walks by key, the comprehension sorts values)",
     "only explicit keys/values/entries are compared between comprehension and loop (the defaults differ by design)",
     "loop variables are never read after the loop",
 ]
